@@ -107,6 +107,19 @@ def key_copied(body):
     return True
 
 
+def getevent_forwards_pack(body):
+    """does some getEvent call receive the parameter pack as std::forward<Args>(args)... (rvalues for by-value
+    parameters: a getEvent policy taking them by value moves them away before they are forwarded to the listeners)?
+    Forwarding the separate leading parameter `first` (which is not passed on) is fine."""
+    for n in walk(body):
+        if is_getevent_call(n):
+            for a in kids(n)[1:]:
+                for x in walk(a):
+                    if is_forward_call(x) and any((member_name(y) or y.get('name')) == 'args' for y in walk(x)):
+                        return True
+    return False
+
+
 def leaf_dispatch(out):
     tu = ('#include "eventpp/eventqueue.h"\n#include "eventpp/hetereventqueue.h"\n'
           'template class eventpp::EventQueue<int, void(int)>;\n')
@@ -116,11 +129,13 @@ def leaf_dispatch(out):
         raise Untranslatable('expected two dispatch overloads in EventDispatcherBase, found %d' % len(ds))
     d_shapes = [key_shape(b, 'directDispatch') for _, b in ds]
     d_copied = [key_copied(b) for _, b in ds]
+    d_fwd = [getevent_forwards_pack(b) for _, b in ds]
     trees = clang_ast(tu, 'EventQueueBase')
     es = [f for f in functions(trees, 'enqueue', within='EventQueueBase')]
     if len(es) != 2:
         raise Untranslatable('expected two enqueue overloads in EventQueueBase, found %d' % len(es))
     e_shapes = [key_shape(b, 'doEnqueue') for _, b in es]
+    e_fwd = [getevent_forwards_pack(b) for _, b in es]
     trees = clang_ast(tu, 'HeterEventQueueBase')
     hs = functions(trees, 'doEnqueue', within='HeterEventQueueBase')
     if len(hs) != 2:
@@ -183,9 +198,14 @@ Definition heter_enqueue_incl_key_copied : bool := %s.
 Definition heter_enqueue_excl_key_copied : bool := %s.
 Definition heter_dispatch_incl_key_copied : bool := %s.
 Definition heter_dispatch_excl_key_copied : bool := %s.
+(* getEvent is handed the parameter pack as rvalues (std::forward<Args>(args)...) although the pack is forwarded to the listeners afterwards *)
+Definition dispatch_getevent_forwards_args : bool := %s.
+Definition dispatch_first_getevent_forwards_args : bool := %s.
+Definition enqueue_getevent_forwards_args : bool := %s.
+Definition enqueue_first_getevent_forwards_args : bool := %s.
 ''' % ((b(d_shapes[0]), b(d_shapes[1]), b(e_shapes[0]), b(e_shapes[1]), b(h_shapes[0]), b(h_shapes[1]),
         b(hd_shapes[0]), b(hd_shapes[1]), returns_param)
-       + tuple('true' if x else 'false' for x in d_copied + h_copied + hd_copied))
+       + tuple('true' if x else 'false' for x in d_copied + h_copied + hd_copied + d_fwd + e_fwd))
 
 
 LEAVES = [('dispatch', leaf_dispatch)]
